@@ -8,9 +8,14 @@ from vc.interp import ModuleSrc, PS_EXC
 REGISTRY = Registry()
 TRUSTED = ["constructor oracle for Process(ppid) (object with its own start time, or NoSuchProcess)"]
 ASSUMPTIONS = ["start times order processes (a parent is never younger than its child unless the PID was recycled)"]
-NOT_COVERED = ["children(recursive=True): the graph walk is covered by a bounded enumeration of all parent-link graphs over four "
-               "PIDs (forests, self-loops, cycles, unlisted parents) x start-time orderings, not proved",
-               "termination of parents() (not claimed by the statement)"]
+ASSUMPTIONS += ["SHAPE BOUND of the children(recursive=True) contract: parent-link graphs over the caller and three other "
+                "pids (375 of the 625 assignments in the quick tier, all in the thorough tier); start times and the "
+                "vanished / zombie status of every child are unconstrained"]
+NOT_COVERED = ["children(recursive=True) on snapshots with more than four pids: the walk is proved per graph up to that size; the "
+               "bounded enumeration of parent-link graphs x concrete start-time orderings against an independent reading stays "
+               "as a second check",
+               "termination of children(recursive=True) beyond the shape bound and of parents() (the symbolic execution of the "
+               "real loop ends on every path of every graph of the table, which is a proof of termination for those graphs only)"]
 ENV = dict(BASE_ENV)
 
 
@@ -206,6 +211,99 @@ REGISTRY.add(Contract(
     canaries=["g0"], replay=None,
     note="children()/parent()/ppid() start with this guard: once the process was seen gone or its PID recycled, they raise "
          "NoSuchProcess instead of describing whoever owns the PID now"))
+
+
+# --- children(recursive=True): the graph walk, per parent-link graph, for all start times / vanishing patterns ---------------
+# SHAPE = the pid -> ppid snapshot over the caller (pid 10) and three other pids (every assignment of parents: forests,
+# self-loops, cycles, unlisted parents, the caller itself having any parent); SYMBOLIC = the caller's and every child's start
+# time, and whether each child is still there / a zombie when its handle is built.
+import itertools as _it
+import os as _os
+ME, OTHERS, UNLISTED = 10, (11, 12, 13), 1
+
+
+def _graphs(tier):
+    out = []
+    for pp in _it.product((UNLISTED, ME) + OTHERS, repeat=len(OTHERS) + 1):
+        if tier != "thorough" and pp[0] not in (UNLISTED, ME, 12):
+            continue                      # quick: the caller's own parent is unlisted, itself, or a potential descendant
+        out.append({"g": "-".join(map(str, pp))})
+    return out
+
+
+def setup_walk(it, cfg):
+    pp = [int(x) for x in cfg["g"].split("-")]
+    ppid_map = dict(zip((ME,) + OTHERS, pp))
+    o = make_process(it, gone=False, reused=False, pid=ME)
+    myct = it.ctx.ghost["born"]
+    o.attrs["create_time"] = EnvFunc("create_time", lambda it2: myct)
+    o.attrs["_raise_if_pid_reused"] = EnvFunc("_raise_if_pid_reused", lambda it2: None)
+    it.env_over["__init__._ppid_map"] = EnvFunc("_ppid_map", lambda it2: dict(ppid_map))
+    mod = ModuleSrc.get(INIT)
+    # (a handle for the caller's own pid can be built too - it must never be, or at least never be returned)
+    alive = {c: it.fresh(f"alive{c}", "Bool") for c in OTHERS + (ME,)}
+    zombie = {c: it.fresh(f"zombie{c}", "Bool") for c in OTHERS + (ME,)}
+    born = {c: it.fresh(f"born{c}", "Real") for c in OTHERS + (ME,)}
+    built = []
+
+    def ctor_effect(it2, env, exc):
+        c = env["pid"]
+        if is_t(c) or c not in alive:
+            raise Unsupported(f"Process({c!r}) for a pid that is not a listed child candidate")
+        built.append(c)
+        if not it2.truth(alive[c], f"child {c} listed"):
+            it2.raise_(PS_EXC["NoSuchProcess"][0], pid=c)
+        po = env["self"]
+        po.module = mod
+
+        def ct(it3):
+            if it3.truth(zombie[c], f"child {c} zombie"):
+                it3.raise_(PS_EXC["ZombieProcess"][0], pid=c)
+            return born[c]
+        po.attrs.update({"_pid": c, "create_time": EnvFunc("create_time", ct)})
+
+    it.ctx.ghost["ctor_effect"] = ctor_effect
+    acc = {c: And(alive[c], Not(zombie[c]), smt.Cmp("<=", myct, born[c])) for c in OTHERS}
+    reach = {c: B(False) for c in OTHERS}
+    for _ in range(len(OTHERS)):
+        reach = {c: And(acc[c], (B(True) if ppid_map[c] == ME else reach.get(ppid_map[c], B(False)))) for c in OTHERS}
+    return {"args": {"self": o, "recursive": True}, "spec": {"reach": reach, "built": built, "ppid_map": ppid_map},
+            "values": list(alive.values()) + list(zombie.values()) + list(born.values()) + [myct]}
+
+
+def p_walk_exact(it, env):
+    """exactly the processes reachable from the caller through parent links whose every link is a live, non-zombie process
+    not older than the caller - each once, never the caller"""
+    res = env["result"]
+    if not isinstance(res, list):
+        return B(False)
+    pids = [r.attrs.get("_pid") if isinstance(r, Obj) else r for r in res]
+    if ME in pids:
+        return B(False)
+    cl = []
+    for c in OTHERS:
+        n = pids.count(c)
+        if n > 1:
+            return B(False)
+        cl.append(Eq(env["reach"][c], B(n == 1)))
+    return And(*cl)
+
+
+def p_walk_frugal(it, env):
+    """a handle is built at most once per pid, and never for the caller itself"""
+    b = env["built"]
+    return B(len(b) == len(set(b)) and ME not in b)
+
+
+WALK = Contract(
+    "C05", INIT, "Process.children", name="__init__.Process.children(recursive=True)", setup=setup_walk, env=ENV,
+    inline=["pid"], configs=_graphs(_os.environ.get("VERIF_TIER", "quick")),
+    ensures=[p_walk_exact, p_walk_frugal], raises={}, canaries=[], replay="c05:tree", max_paths=20000,
+    note="per parent-link graph over the caller + 3 pids (all 5^4 assignments in the thorough tier), for every start-time "
+         "ordering and every pattern of children vanishing / being zombies: the walk returns exactly the reachable, "
+         "not-older processes, each once, never the caller, and terminates (the symbolic execution of the real loop ends "
+         "on every path)")
+REGISTRY.add(WALK)
 
 
 # --- children(): bounded ------------------------------------------------------------------------------------
